@@ -21,7 +21,7 @@ from concurrent.futures import ThreadPoolExecutor
 
 import vlib
 
-CFGS_ALL = ["MC_guards_q", "MC_serial", "MC_planman", "MC_serial3", "MC_plan_q", "MC_payload_q", "MC_log", "MC_inj", "MC_peer"]
+CFGS_ALL = ["MC_guards_q", "MC_serial", "MC_planman", "MC_planedit", "MC_serial3", "MC_plan_q", "MC_payload_q", "MC_log", "MC_inj", "MC_peer"]
 
 # (name, file, old, new, configurations to try in order, what implementation defect it models)
 M = []
@@ -167,6 +167,25 @@ mut("root_status_counts", "IF f.s = NONE THEN s1 ELSE [s1 EXCEPT !.sub = Max(@, 
 mut("inj_enter_reversed", "          [] OTHER                                              -> UpTo(k) \\o own", "          [] OTHER                                              -> IF m = M_ENTER THEN Rev(UpTo(k)) \\o own ELSE UpTo(k) \\o own", cfgs=["MC_inj"], note="enter delivered Ik..I1")
 mut("inj_own_reenter_skipped", "          [] OTHER                                              -> UpTo(k) \\o own", "          [] OTHER                                              -> IF m = M_REENTER /\\ k > 0 THEN UpTo(k) ELSE UpTo(k) \\o own", cfgs=["MC_inj"], note="own reenter skipped when injections exist")
 mut("inj_postupdate_forward", "[] m \\in {M_POST_UPDATE, M_POST_REACT, M_EXIT}       -> own \\o Rev(UpTo(k))", "[] m \\in {M_POST_REACT, M_EXIT}       -> own \\o Rev(UpTo(k))\n          [] m = M_POST_UPDATE -> own \\o UpTo(k)", cfgs=["MC_inj"], note="postUpdate injections forward")
+
+# ---- third batch
+mut("reenter_wrong_state", "ELSE Push([st EXCEPT !.requested = NONE], <<D(M_REENTER, st.active)>>)", "ELSE Push([st EXCEPT !.requested = NONE], <<D(M_REENTER, (st.active + 1) % N)>>)", note="reenter delivered to another state")
+mut("enter_old_state", "Push([st EXCEPT !.active = st.requested, !.requested = NONE], <<D(M_ENTER, st.requested)>>)", "Push([st EXCEPT !.active = st.requested, !.requested = NONE], <<D(M_ENTER, st.active)>>)", note="enter delivered to the state just left")
+mut("guard_sees_stale_request", "      req  |-> st.request,", "      req  |-> IF kind = 3 THEN st.pend ELSE st.request,", note="request() in guards still shows the request being evaluated")
+mut("plan_append_front", "THEN [st |-> [st EXCEPT !.plan = Append(@, <<a.a, a.b, 0>>), !.planExists = TRUE], r |-> 1, lg |-> <<>>]", "THEN [st |-> [st EXCEPT !.plan = <<<<a.a, a.b, 0>>>> \\o @, !.planExists = TRUE], r |-> 1, lg |-> <<>>]", note="tasks are prepended")
+mut("plan_remove_next", "THEN [st |-> [st EXCEPT !.plan = RemoveAt(@, a.a + 1)], r |-> 1, lg |-> <<>>]", "THEN [st |-> [st EXCEPT !.plan = RemoveAt(@, IF a.a + 2 <= Len(@) THEN a.a + 2 ELSE a.a + 1)], r |-> 1, lg |-> <<>>]", note="iterator remove takes the following task")
+mut("plan_cyclic_not_cleared_at_once", "                   IF t[1] = t[2] THEN succ \\ {t[1]} ELSE succ,", "                   succ,", note="two cyclic tasks of one origin both fire on one report")
+mut("plan_succeeded_needs_active_success", "                 ELSE Push([st EXCEPT !.ts = 1], <<D(M_PLAN_SUCCEEDED, NONE), F0(\"plan_clear\")>>)", "                 ELSE IF st.active \\in st.succ THEN Push([st EXCEPT !.ts = 1], <<D(M_PLAN_SUCCEEDED, NONE), F0(\"plan_clear\")>>) ELSE Push(st, <<>>)",
+    note="(unspecified?) planSucceeded only for the active state's own report")
+mut("plan_status_sub_only", "            LET s == Max(st.sub, StatusBits(st)) IN", "            LET s == st.sub IN", note="reports made outside the cycle (machine.succeed) are ignored by the plan step")
+mut("plan_status_bits_only", "            LET s == Max(st.sub, StatusBits(st)) IN", "            LET s == StatusBits(st) IN", note="(internal) region status ignored")
+mut("status_success_over_failure", "StatusBits(st) == IF st.active \\in st.fail THEN 2 ELSE IF st.active \\in st.succ THEN 1 ELSE 0", "StatusBits(st) == IF st.active \\in st.succ THEN 1 ELSE IF st.active \\in st.fail THEN 2 ELSE 0", note="success bit wins over failure bit")
+mut("pw_full_no_planexists", "ELSE [st |-> [st EXCEPT !.planExists = TRUE], r |-> 0, lg |-> <<>>]", "ELSE [st |-> st, r |-> 0, lg |-> <<>>]", note="(internal) failed payload append")
+mut("gres_sticky", "                    [s1 EXCEPT !.gres = (f.x = 0) /\\ st.cancelled]", "                    [s1 EXCEPT !.gres = st.cancelled]", note="(internal) cancelledBefore")
+mut("succeed_self_targets_root", "[] a.k = \"S\"  -> LET tg == IF a.a = NONE THEN sid ELSE a.a IN", "[] a.k = \"S\"  -> LET tg == IF a.a = NONE THEN 0 ELSE a.a IN", note="succeed() without argument reports state 0")
+mut("dtor_manual_runs_exit", "[] op = \"dtor\"   -> IF Manual THEN [s0 EXCEPT !.alive = FALSE]", "[] op = \"dtor\"   -> IF Manual /\\ ~IsActive(st) THEN [s0 EXCEPT !.alive = FALSE]", note="(equivalent: contract)")
+mut("exit_keeps_active", "PlanDataCleared([Push(st, <<>>) EXCEPT !.active = NONE, !.requested = NONE, !.request = NoT, !.prev = NoT])", "PlanDataCleared([Push(st, <<>>) EXCEPT !.requested = NONE, !.request = NoT, !.prev = NoT])", note="an exited machine still reports an active state")
+mut("iwith_payload_dropped", "[] op = \"iwith\"  -> [s0 EXCEPT !.request = <<NONE, o.a, o.p>>", "[] op = \"iwith\"  -> [s0 EXCEPT !.request = <<NONE, o.a, 0>>", note="immediateChangeWith drops the payload")
 
 
 def run_one(m, spec_src):
